@@ -77,18 +77,18 @@ PROPS = {
     },
     "C03": {
         "title": "Arithmetic does not depend on how the expression reaches is/2",
-        "v_units": [], "s_checks": ["arith_tables"], "k_groups": [],
+        "v_units": ["regalloc"], "s_checks": ["arith_tables", "arith_interm"], "k_groups": [],
         "replay": "paths",
         "level": "other",
-        "explanation": "structural table agreement: for every evaluable functor the compiled evaluator (get_*_instr -> Instruction -> *_instr) and the run-time evaluator (arith_eval_by_metacall) are read off the current text and must call the same kernel with the same operand order and result wrapping; with the kernels' contracts (C01/C02) same kernel => same number or same formal error. Not a semantic proof of the evaluators.",
+        "explanation": "three parts. (1) Verus, unit regalloc: the register pool that every arithmetic intermediate is taken from (DebrayAllocator::alloc_reg_to_non_var) hands out only registers not marked in use; structural arith_interm: compile_is takes every intermediate from that pool (Level::Deep) -- the repaired defect 11 wrote them to a live argument register. (2) structural table agreement: for every evaluable functor the compiled evaluator (get_*_instr -> Instruction -> *_instr) and the run-time evaluator (arith_eval_by_metacall) are read off the current text and must call the same kernel with the same operand order and result wrapping; with the kernels' contracts (C01/C02) same kernel => same number or same formal error. Not a semantic proof of the evaluators.",
     },
     "C05": {
         "title": "Equal integers behave identically regardless of how they were produced",
         "v_units": ["unifynum", "numcmp", "arith", "switchsel", "termcmp"],
-        "ob_filter": {"switchsel": [r"^select_switch_on_term_index::"], "termcmp": [r"^ParallelHeapIter_parallel_cmp::", r"^MachineState_(compare_term_test|eq_test)::"], "arith": [r"^(arena_from_i64|arena_from_isize|arena_from_usize|rnd_i|round|floor|ceiling|truncate)::"], "numcmp": [r"^(Number_cmp|Number_eq)::", r"^lemma::lemma_int_cmp_by_value$"]},
+        "ob_filter": {"switchsel": [r"^select_switch_on_term_index::"], "termcmp": [r"^ParallelHeapIter_parallel_cmp::", r"^MachineState_(compare_term_test|eq_test)::"], "arith": [r"^(arena_from_i64|arena_from_isize|arena_from_usize|rnd_i|round|floor|ceiling|truncate)::"], "numcmp": [r"^(Number_cmp|Number_eq|Number_partial_cmp_usize|Number_eq_usize)::", r"^lemma::lemma_int_cmp_by_value$"]},
         "s_checks": ["switch_routes"],
         "k_groups": ["fixnum_repr"],
-        "replay": "index",
+        "replay": "index", "replay_by_unit": {"numcmp": "intuse", "arith": "intuse", "unifynum": "intuse"}, "sweep": ["index", "intuse"],
         "level": "proof",
     },
     "C13": {
@@ -128,9 +128,12 @@ WATCH = {
     "C20": [("src/machine/copier.rs", "copy_partial_string"), ("src/machine/copier.rs", "copy_list"), ("src/machine/heap.rs", "allocate_pstr"),
             ("src/machine/heap.rs", "allocate_cstr"), ("src/machine/heap.rs", "slice_to_str"), ("src/machine/heap.rs", "char_at"),
             ("src/machine/partial_string.rs", "pre_cycle_discovery_stepper"), ("src/machine/partial_string.rs", "post_cycle_discovery_stepper"),
-            ("src/machine/partial_string.rs", "to_string_mut"), ("src/machine/partial_string.rs", "walk_hare_to_cycle_end")],
+            ("src/machine/partial_string.rs", "to_string_mut"), ("src/machine/partial_string.rs", "walk_hare_to_cycle_end"),
+            ("src/machine/machine_state_impl.rs", "try_from_list"), ("src/machine/machine_state_impl.rs", "try_from_inner_list"), ("src/machine/machine_state_impl.rs", "try_from_partial_string")],
     "C13": [("src/heap_iter.rs", "from", r"impl < 'a > ParallelHeapIter < 'a >")],
     "C55": [("src/heap_print.rs", "requires_space"), ("src/heap_print.rs", "ambiguity_check"), ("src/heap_print.rs", "print_op"), ("src/heap_print.rs", "print_impromptu_atom")],
-    "C33": [("src/machine/heap.rs", "allocate_pstr"), ("src/machine/heap.rs", "allocate_cstr"), ("src/machine/heap.rs", "write_with"),
+    "C03": [("src/arithmetic.rs", "compile_is"), ("src/codegen.rs", "compile_inlined"), ("src/codegen.rs", "compile_arith_expr"), ("src/codegen.rs", "compile_is_call"),
+            ("src/debray_allocator.rs", "mark_non_var"), ("src/codegen.rs", "mark_non_callable")],
+    "C33": [("src/machine/heap.rs", "sized_iter_to_heap_list"), ("src/machine/heap.rs", "allocate_pstr"), ("src/machine/heap.rs", "allocate_cstr"), ("src/machine/heap.rs", "write_with"),
             ("src/machine/heap.rs", "functor_writer", r"impl Heap")],
 }
